@@ -97,7 +97,11 @@ pub fn run(args: &[String]) -> i32 {
                 let mut ops = vec![];
                 for rel in &op_names {
                     let stem = rel.strip_suffix(".graphql").unwrap_or(rel);
-                    let name = format!("{stem}.d.graphql.ts");
+                    // the declaration file's name depends on the generate mode; whichever exists is read
+                    let name = [format!("{stem}.d.graphql.ts"), format!("{stem}.graphql.d.ts"), format!("{stem}.graphql.ts")]
+                        .into_iter()
+                        .find(|n| written.contains_key(n))
+                        .unwrap_or_else(|| format!("{stem}.d.graphql.ts"));
                     let mut o = read_file(&written, &name);
                     o["file"] = json!(rel);
                     ops.push(o);
